@@ -101,6 +101,41 @@ def present_syms(t):
     return []
 
 
+def none_facts(term):
+    """[(set of symbol indices known to be None, branch term)] for the conditional branches of `term`"""
+    from vt.shapes import IsNone
+    out = []
+
+    def facts(t, positive):
+        """indices i such that p[i] is None when test t has truth value `positive`"""
+        if isinstance(t, IsNone) and isinstance(t.t, Sym):
+            # `p is None` true -> None ; `p is not None` false -> None
+            return set([t.t.i]) if positive != t.neg else set()
+        if isinstance(t, Cond) and positive:
+            # and-chain  (y if x else x): true only when both hold
+            if t.b is t.test or repr(t.b) == repr(t.test):
+                return facts(t.test, True) | facts(t.a, True)
+        return set()
+
+    def walk(t):
+        if isinstance(t, Cond):
+            fa, fb = facts(t.test, True), facts(t.test, False)
+            if fa:
+                out.append((fa, t.a))
+            if fb:
+                out.append((fb, t.b))
+            walk(t.a)
+            walk(t.b)
+        elif isinstance(t, (Tup, Lst)):
+            for x in t.items:
+                walk(x)
+        elif isinstance(t, Cat):
+            walk(t.a)
+            walk(t.b)
+    walk(term)
+    return out
+
+
 def r1_nothing_dropped(chk, only_lhs=None, rule='C02.R1'):
     chk.unit(PARSER)
     chk.doc(rule, 'per production alternative (three dialects): every value-carrying right-hand-side symbol is '
@@ -147,6 +182,11 @@ def r1_nothing_dropped(chk, only_lhs=None, rule='C02.R1'):
             vals = [i for i in used if carries_value(gs, p.rhs[i - 1])]
             if vals != sorted(vals) and (p.lhs, p.rhs) not in REORDER_OK:
                 problems.append('parts are listed out of source order: %s' % ['p[%d]' % i for i in vals])
+            # a part is not used on the branch where the action has just established that it is None
+            for absent, branch in none_facts(term):
+                hit = [i for i in present_syms(branch) if i in absent]
+                if hit:
+                    problems.append('p[%d] is placed in the tree on the branch where the test says it is None' % hit[0])
             tr = transforms_in(term)
             if tr:
                 problems.append('a parse value is rewritten by str.%s(): the tree no longer shows what was written' %
